@@ -88,8 +88,15 @@ def run(pid, tier, seed, replay):
     errors = {"modelled": 0, "other": 0}
     for c in cases:
         if not c["ok"]:
+            # listed known finding: a negated column whose container holds i64::MIN (the negation wraps when the
+            # predicate is evaluated on the row, the rewritten statistics predicate reasons without the wrap)
+            imin = -2 ** 63
+            key = None
+            if "(- " in c.get("sql", "") and "panic" not in c and any(
+                    imin in r[0] for k in c.get("containers", []) for r in k.get("rows", [])):
+                key = "C22-negation-of-i64-min-wraps"
             ck.fail_input("pruning: " + (c.get("why") or "") + (" panic: " + c["panic"] if "panic" in c else ""),
-                          {"predicate": c["sql"], "pred": c["pred"], "containers": c["containers"], "guarantees": c.get("guarantees")})
+                          {"predicate": c["sql"], "pred": c["pred"], "containers": c["containers"], "guarantees": c.get("guarantees")}, key=key)
         if "error" in c:
             errors["modelled" if c["modelled"] else "other"] += 1
             if c["modelled"]:
